@@ -252,6 +252,11 @@ func (w WALBatch) replay(fs *fileStore) error {
 		if row.LSN > fs._nextLSN {
 			fs._nextLSN = row.LSN
 		}
+		if row.WALOp == OpInsert && row.cellID > fs.lastKey {
+			// the row id counter must never fall behind a logged row, even if
+			// the page holding that row already made it to disk
+			fs.lastKey = row.cellID
+		}
 		node, err := fs.fetch(row.pageID)
 		if err != nil {
 			return err
@@ -266,9 +271,6 @@ func (w WALBatch) replay(fs *fileStore) error {
 			bt.setRoot(node)
 			err = bt.insertKey(row.cellID, row.LSN, row.val)
 			if err != nil && !errors.Is(err, errKeyAlreadyExists) {
-				return err
-			}
-			if err := fs.incrementLastKey(); err != nil {
 				return err
 			}
 
